@@ -262,7 +262,7 @@ class Policy:
 
 
 class Baton:
-    def __init__(self, fns, policy, tiers, max_points=2_000_000, wait=120.0,
+    def __init__(self, fns, policy, tiers, max_points=60_000_000, wait=120.0,
                  instruction_level=True, extra_instruction_codes=(),
                  line_level=True, only_instruction_codes=None):
         self.fns = fns
